@@ -674,6 +674,10 @@ func (db *SpecDB) resolveContracts(P *Program) {
 		} else {
 			obj, err := c.resolveFunc(P)
 			if err != nil {
+				if c.PkgPath != "" && !P.Complete[c.PkgPath] {
+					db.Skipped = append(db.Skipped, fmt.Sprintf("%s:%d (package %s only partially loaded: %v)", c.File, c.Line, c.PkgPath, err))
+					continue
+				}
 				db.Errors = append(db.Errors, fmt.Sprintf("%s:%d: %v", c.File, c.Line, err))
 				continue
 			}
